@@ -107,7 +107,7 @@ type Result struct {
 	Strategy     string
 }
 
-var repoFrame = regexp.MustCompile(`github\.com/openconfig/gnmi/([A-Za-z0-9_/]+)\.([^\s(]+(?:\([^)]*\))?[^\s(]*)\(`)
+var repoFrame = regexp.MustCompile(`github\.com/openconfig/gnmi/([A-Za-z0-9_/]+)\.((?:\(\*?[A-Za-z0-9_]+(?:\[[^\]]*\])?\)\.)?[A-Za-z0-9_]+(?:\.func[0-9.]+|\.[A-Za-z0-9_]+)*)\(`)
 
 // panicSite extracts the innermost repository (non-simulator) function from
 // a stack trace.
@@ -134,6 +134,9 @@ var digits = regexp.MustCompile(`[0-9]+`)
 var hexaddr = regexp.MustCompile(`0x[0-9a-f]+`)
 
 func normPanic(v string) string {
+	if strings.HasPrefix(v, "interface conversion") {
+		return "interface conversion"
+	}
 	v = hexaddr.ReplaceAllString(v, "0x?")
 	v = digits.ReplaceAllString(v, "N")
 	if i := strings.Index(v, "\n"); i >= 0 {
